@@ -9,14 +9,15 @@ from nbsym import engine as E
 ID = "C06"
 TITLE = "extract_read_variants keeps exactly the alignments of the sample's read groups that pass MAPQ / duplicate / QC-fail / supplementary filters, one row per read name with mates merged; cells are the aligned bases; reference mismatches always raise; DP/RCOUNT/RCALLS/SNVDP are the corresponding counts"
 TECHNIQUE = 'symbolic execution of extract_read_variants against pysam contract stubs; expected matrix as a z3 fold over all alignment variables; witnesses replayed on synthetic BAMs through real pysam'
-ENCODED = ["mchap.io.bam.extract_read_variants", "mchap.io.bam.encode_read_alleles", "mchap.io.bam.encode_read_distributions",
+ENCODED = ["mchap.io.loci.Locus.set_sequence", "mchap.io.loci.Locus.set_variants", "mchap.io.loci._merge_snps", "mchap.io.loci.Locus.validate_reference_alleles",
+           "mchap.io.bam.extract_read_variants", "mchap.io.bam.encode_read_alleles", "mchap.io.bam.encode_read_distributions",
            "mchap.application.baseclass.program.encode_sample_reads", "mchap.encoding.character.transcode.as_allelic", "mchap.encoding.character.sequence.depth",
            "mchap.encoding.integer.transcode.as_probabilistic", "mchap.mset.unique_counts"]
 STUBS = ["pysam.AlignmentFile / AlignedSegment -> contract stubs: header['RG'] list, fetch() yields k alignments whose flags, MAPQ, read group, read name, per-site 'aligned?' and base are symbolic; get_aligned_pairs(matches_only=True, with_seq=True) yields one (read_pos, ref_pos, ref_base) per aligned site",
          "everything inside pysam/htslib (BAM/CRAM decoding, CIGAR -> aligned pairs, fetch overlap, clipping) is outside the claim"]
 ASSUMES = ["the expected matrix is a z3 term over ALL read variables (fold over alignments in file order); the obligation is pc => expected == observed, so attributes the code never looked at are universally quantified",
            "bases range over {REF, ALT, N}; read names over 2 values; 3 read groups (two for sample A, one for sample B)"]
-BOUNDS = {"quick": "2 alignments x 1 SNV, read groups {rg0->A, rg2->B}, bases {REF, ALT} (thorough: 3 read groups, bases {REF, ALT, N}), four combinations of the keep flags (thorough: all eight), MAPQ and threshold symbolic in 0..2, id field SM and ID, either sample; pool of two samples; reference mismatch injected at any aligned site",
+BOUNDS = {"quick": "SNV file vs FASTA: 2 records (thorough 3) at 2 positions, possibly sharing one, REF in {A,C}, any ALT, FASTA bases in {A,C}, sequence-first and variants-first; 2 alignments x 1 SNV, read groups {rg0->A, rg2->B}, bases {REF, ALT} (thorough: 3 read groups, bases {REF, ALT, N}), four combinations of the keep flags (thorough: all eight), MAPQ and threshold symbolic in 0..2, id field SM and ID, either sample; pool of two samples; reference mismatch injected at any aligned site",
           "thorough": "2 alignments x 2 SNVs and 3 alignments x 1 SNV"}
 OUTSIDE = "htslib decoding, CIGAR handling, fetch overlap semantics, CRAM reference lookup (pysam); phred-based probabilities (float)"
 TASKS_PER_CHILD = 2
@@ -34,6 +35,7 @@ def configs(tier):
             out.append(dict(group="extract", k=2, ns=1, idf=idf, want=want, mismatch=True, skips=[True, True, True], small=True))
         out.append(dict(group="encode", k=2, ns=1, small=True))
         out.append(dict(group="encode", k=2, ns=1, small=True, layout="two"))
+        out.append(dict(group="locus-ref", n_rec=2))
         return out
     for k, ns in [(2, 2), (3, 1)]:
         for idf in ("SM", "ID"):
@@ -45,6 +47,8 @@ def configs(tier):
     out.append(dict(group="encode", k=2, ns=2, small=False, layout="two"))
     out.append(dict(group="encode", k=3, ns=1, small=True))
     out.append(dict(group="encode", k=3, ns=1, small=True, layout="two"))
+    out.append(dict(group="locus-ref", n_rec=2))
+    out.append(dict(group="locus-ref", n_rec=3))
     return out
 
 
@@ -204,7 +208,7 @@ def run_config(c, col):
     warnings.simplefilter("ignore")
     prof = E.Profile()
     with prof:
-        (_run_extract if c["group"] == "extract" else _run_encode)(c, col)
+        {"extract": _run_extract, "encode": _run_encode, "locus-ref": _run_locus_ref}[c["group"]](c, col)
     col.functions |= set(prof.names())
     E.cfg.concrete_floats = False
 
@@ -317,6 +321,102 @@ def _run_encode(c, col):
             col.ok("every column's matrix == concatenation of its members' own filtered pileups (members share one alignment file; layout %s); RCOUNT/DP/SNVDP/RCALLS/read_calls/read_counts recomputed from it" % c.get("layout", "pool"))
 
 
+# ------------------------------------------------------------------ SNV file vs FASTA: every record's REF base is checked
+
+
+def _run_locus_ref(c, col):
+    """Locus.set_sequence(fasta).set_variants(vcf) and the reverse order: records of the SNV file (several may share one position,
+    as split multi-allelic sites do) against the FASTA -- any REF base that disagrees with the FASTA must raise, and when
+    nothing disagrees the alleles are REF followed by the ALT bases in order of first appearance"""
+    lo = E.load("mchap.io.loci")
+    site = "mchap.io.loci.Locus.set_variants"
+    n_rec = c["n_rec"]
+    B = "ACGT"
+
+    class Rec:
+        def __init__(self, pos, ref, alts, rid):
+            self.contig, self.start, self.stop, self.ref, self.alts, self.id = "chr1", pos, pos + 1, ref, tuple(alts), rid
+
+    def body(ctx):
+        fasta = [B[int(E.SymInt(E.fresh_int(ctx, "fa%d" % j, 0, 1)))] for j in range(2)]  # two positions: 101 and 102
+        recs = []
+        for i in range(n_rec):
+            pos = 101 + int(E.SymInt(E.fresh_int(ctx, "pos%d" % i, 0, 1))) if i else 101
+            ref = B[int(E.SymInt(E.fresh_int(ctx, "ref%d" % i, 0, 1)))]
+            alt = B[int(E.SymInt(E.fresh_int(ctx, "alt%d" % i, 1, 3)))]
+            if alt == ref:
+                raise E.PathAbort()
+            recs.append(Rec(pos, ref, [alt], "."))
+        order = int(E.SymInt(E.fresh_int(ctx, "order", 0, 1)))  # sequence first or variants first
+
+        class FakeFasta:
+            def __init__(self, path):
+                pass
+
+            def __enter__(self):
+                return self
+
+            def __exit__(self, *a):
+                return False
+
+            def fetch(self, contig, start, stop):
+                return "T" + "".join(fasta).lower() + "T"
+
+        class FakeVcf(FakeFasta):
+            def fetch(self, contig, start, stop):
+                return iter(sorted(recs, key=lambda r: r.start))
+
+        class FakePysam:
+            FastaFile = FakeFasta
+            VariantFile = FakeVcf
+
+        lo.pysam = FakePysam
+        locus = lo.Locus("chr1", 100, 104, "loc", None, None)
+        raised = None
+        out = None
+        try:
+            out = locus.set_sequence("ref.fa").set_variants("snv.vcf") if order == 0 else locus.set_variants("snv.vcf").set_sequence("ref.fa")
+        except ValueError as e:
+            raised = e
+        return fasta, [(r.start, r.ref, r.alts) for r in sorted(recs, key=lambda r: r.start)], order, raised, None if out is None else [(v.start, v.alleles) for v in out.variants]
+
+    first = True
+    for pr in E.explore(body, stats=col.stats):
+        if pr.exc is not None:
+            col.fail(site, "exception", shape=dict(group="locus-ref"), witness=dict(exc=repr(pr.exc), model=E.model_dict(E.prove(pr.ctx, False).model)), desc="raised %r" % (pr.exc,))
+            continue
+        col.path()
+        if first:
+            col.reachable(pr.ctx)
+            first = False
+        fasta, recs, order, raised, variants = pr.value
+        bad = [(p_, r_) for p_, r_, _ in recs if fasta[p_ - 101] != r_]
+        w = dict(fasta="".join(fasta), records=recs, order=order, model=E.model_dict(E.prove(pr.ctx, False).model))
+        if bad and raised is None:
+            col.fail(site, "reference-mismatch-accepted", shape=dict(group="locus-ref"), witness=w,
+                     desc="SNV-file record with REF %r at %d disagrees with the FASTA base %r but no error was raised (alleles used: %s)" % (bad[0][1], bad[0][0] + 1, fasta[bad[0][0] - 101], variants))
+        elif not bad and raised is not None:
+            col.fail(site, "spurious-reference-error", shape=dict(group="locus-ref"), witness=dict(w, exc=repr(raised)), desc="consistent records rejected: %r" % (raised,))
+        elif not bad:
+            want = {}
+            for p_, r_, alts in recs:
+                lst = want.setdefault(p_, [r_])
+                lst.extend(a for a in alts if a not in lst)
+            got = {p_: list(al) for p_, al in variants}
+            if got != want:
+                col.fail(site, "merged-alleles", shape=dict(group="locus-ref"), witness=dict(w, got=str(got), want=str(want)), desc="alleles %s expected %s (REF first, ALT bases by first appearance)" % (got, want))
+            else:
+                col.ok("records consistent with the FASTA: alleles are REF then the ALT bases by first appearance (records sharing a position merged)")
+        else:
+            col.ok("a record whose REF base disagrees with the FASTA is reported as an error (whichever of sequence / variants is set first, also for the second record at a position)")
+
+
+def _replay_locus_ref(v):
+    from checks import wiring
+
+    return wiring.replay_real(v, _run_locus_ref)
+
+
 def _layout(layout):
     """sample -> [(member, path)]: one pool of A and B, or A and B as two samples -- in both cases read from the SAME alignment file"""
     if layout == "pool":
@@ -403,6 +503,8 @@ def replay(v):
 
     c = v["config"]
     m = v.get("model") or (v.get("witness") or {}).get("model") or {}
+    if c["group"] == "locus-ref":
+        return _replay_locus_ref(v)
     if c["group"] != "extract":
         return _replay_encode(v)
     k, idf, want, mm, ns = c["k"], c["idf"], c["want"], c["mismatch"], c.get("ns", 2)
